@@ -309,6 +309,15 @@ func (g *Gen) ingestTables() (tables [][]Ev, flat []Ev) {
 	return tables, flat
 }
 
+// unknownHistory: the generator continues on a recovered store whose keys have a history it did
+// not record (a key may hold several SETs): no SingleDelete on a key before a Delete / DeleteRange
+// has reset it (the SingleDelete contract).
+func (g *Gen) unknownHistory() {
+	for k := 0; k < g.U.R(); k++ {
+		g.pois[k] = true
+	}
+}
+
 func (g *Gen) preIngest() {
 	if g.P.FlushBeforeIngest {
 		g.R.Exec(Ev{"op": "maint", "kind": "flush"})
